@@ -510,7 +510,7 @@ fn execute_in<D: SimData>(sc: &Sc20) -> Outcome {
 fn short_ev(e: &Ev20) -> String {
     let s = format!("{:?}", e);
     if s.len() > 80 {
-        format!("{}…", &s[..80])
+        format!("{}…", s.chars().take(80).collect::<String>())
     } else {
         s
     }
